@@ -3,9 +3,12 @@ package loader
 import "github.com/jsightapi/jsight-schema-core/notations/jschema/ischema"
 
 func AddUnnamedTypes(rootSchema *ischema.ISchema) {
-	for _, typ := range rootSchema.TypesList() {
-		for unnamed, unnamedTyp := range typ.Schema.TypesList() {
-			rootSchema.AddType(unnamed, unnamedTyp)
+	types := rootSchema.TypesList()
+	for _, name := range rootSchema.TypeNames() {
+		typ := types[name]
+		typTypes := typ.Schema.TypesList()
+		for _, unnamed := range typ.Schema.TypeNames() {
+			rootSchema.AddType(unnamed, typTypes[unnamed])
 		}
 	}
 }
